@@ -508,6 +508,8 @@ def lex_time(text, repeat=5, warm_limit=120.0, run_limit=20.0, stop_at_error=Fal
                 signal.setitimer(signal.ITIMER_REAL, 0)
             if best is None or dt < best:
                 best = dt
+            if dt >= 1.0:  # a second per run: repeating it cannot rescue it
+                break
         return best, ntok, nerr
     finally:
         signal.signal(signal.SIGALRM, old)
@@ -1062,6 +1064,8 @@ def parse_time(text, repeat=3, warm_limit=120.0, run_limit=20.0):
                 signal.setitimer(signal.ITIMER_REAL, 0)
             if best is None or dt < best:
                 best = dt
+            if dt >= 1.0:
+                break
         return best, ok, 1 - ok
     finally:
         signal.signal(signal.SIGALRM, old)
